@@ -101,6 +101,7 @@ type simLlama struct {
 	closing bool
 
 	createdAt time.Duration
+	visibleAt time.Duration // the GPU inventory reports this runner's memory as used from then on (0 = at once)
 	closedAt  time.Duration
 
 	// completion script (H-api)
@@ -309,6 +310,10 @@ type simInventory struct {
 func (inv *simInventory) used(id string) uint64 {
 	var u uint64
 	for _, s := range inv.w.live() {
+		if s.visibleAt > 0 && inv.w.now != nil && inv.w.now() < s.visibleAt {
+			// the device does not report this runner's allocation yet
+			continue
+		}
 		u += s.EstimatedVRAMByGPU(id)
 	}
 	return u
